@@ -71,6 +71,35 @@ CLAIMS["C19"] = {
     "design_ref": "DESIGN.md §3 C19",
 }
 
+CLAIMS["C14"] = {
+    "category": "exploration",
+    "technique": "reference-model monitor (independent literal grammar / validator / normal forms) over the real TryFrom / Display / xsd conversions and the FEEL parse+evaluate path",
+    "text": "Every whole-minute offset -14:59..+14:59 and every zone id of the implementation's table on time and date-time, boundary grids of year/month/day/hour/minute/second, seeded random dates/times/date-times/durations (0..9+ fraction digits, components to 2^64-1) and single-character delete/replace/insert corruptions at every position of valid literals are classified by an independent validator and pushed through date()/time()/date and time()/duration()/@-literals/string()/xsd input; acceptance, denoted components, printed form (valid literal, equal on re-read, stable, durations normalised) are compared. Quick ~63k literals / 240k observations, thorough ~2.6M literals.",
+    "note": "Trusts lib/rtemporal.py and the zone table as listed by chrono_tz::TZ_VARIANTS. Undecided classes (year 0000, lowercase z, >9 fraction digits, PT0.S, mixed durations, zone-id case, components beyond u64/i64) are counted, never violations. Offsets and zones are exhaustive, the rest sampled by seed.",
+    "design_ref": "DESIGN.md §3 C14",
+}
+CLAIMS["C15"] = {
+    "category": "exploration",
+    "technique": "reference-model monitor: integer proleptic-Gregorian calendar and UTC-line instants (zoneinfo on both the system and the bundled tz database) against the real constructor, literal and FEEL evaluator; exhaustive in-driver calendar sweep",
+    "text": "Exhaustive in both tiers: every (y,m,d), y in -1..2400, m in 0..13, d in 0..32 (1,109,724 cells) through date(y,m,d) (tuple constructor and built-in) and through the literal, weekday of all 877,313 valid dates, order of consecutive dates. Seeded: out-of-range components of date(y,m,d); date triples up to year +-999999999 under <,<=,>,>=,=,!=,between,in,unary tests and the properties; date-time triples with offsets and named zones under =,!=,unary tests,between,4 interval forms, subtraction both ways and all properties; time properties; whole months between dates; duration triples (add, negate, =, order, components).",
+    "note": "Named zones decided only for instants in 1980-2019 whose offset is constant +-48 h in the system tz database and in chrono-tz's bundled 2022a. Date-times ordered through between/in/unary tests only (the evaluator has no < for them). Undecided: year 0000 literal, end-of-month clipping in whole-months, hostile operands (only panics count).",
+    "design_ref": "DESIGN.md §3 C15",
+}
+CLAIMS["C17"] = {
+    "category": "exploration",
+    "technique": "runtime invariant monitor at a read-only hook + reference-model (history) checker; breadth-first closure of the implementation's reachable states, literal enumeration of short histories, seeded long histories",
+    "text": "Histories of add / replace / remove / clear / deploy over a 7-model alphabet (same namespace, same name, identical twin, disjoint, namespace equal to another model's name, one that fails to build) and 52 operations (every exact, cross and absent (namespace, name) remove pair) run on the real dmntk_workspace::Workspace. After every operation the verif_snapshot hook and evaluate_invocable probes are compared with a sequential model of the statement (I1 indexes = list, I2 add iff no clash, I3 remove/replace, I4 evaluators and content). The driver walks all reachable self-consistent snapshot states breadth-first (846 states, 44k transitions, frontier closed), each transition validated in Python; all histories of length <=4 (quick), <=5 over 19 operations and <=6 over 10 operations (thorough), and 6k / 60k random histories of length 7-40 are checked the same way.",
+    "note": "Oracle = lib/wsmodel.py; the hook is trusted to read faithfully. Outcomes the statement leaves open are accepted (models sharing exactly one key with a cross-pair remove or a replaced model may stay or go; evaluators after an operation that changed nothing). List order is not compared. Inconsistent states are not expanded.",
+    "design_ref": "DESIGN.md §3 C17",
+}
+CLAIMS["C18"] = {
+    "category": "exploration",
+    "technique": "black-box runtime monitoring of the real HTTP service on loopback: strict JSON parsing of every response, echo/round-trip value oracle, reference workspace model over the request history, fault injection with liveness probes",
+    "text": "The real dmntk_server::start_server runs inside the driver on 16 loopback ports. Seeded request histories mix definitions add / replace / remove / clear / deploy, evaluations of constant decisions, and echo decisions through /evaluate (FEEL literals) and /tck/evaluate (typed): 10 string classes (quotes, backslashes, control, non-ASCII, astral, injection), 10 number strata, booleans, nulls, nested lists, contexts with 5 key classes, 5 temporal kinds; faults from 21 malformed-request classes. Every body must parse as strict JSON with a data or errors envelope and decode to the value sent; responses must follow the reference workspace model (replace substitutes the stored model); after every fault workers+4 valid probes on fresh connections must be answered (bounded wait, re-probed; only persistent failure counts). Quick 96 histories x 20-60 requests, thorough 1600 x 20-200.",
+    "note": "Oracle = lib/wsmodel.py plus Python json in strict mode. Cross-pair removes are left to C17; replace with a one-key clash and evaluation after no-op mutations are undecided; responses to raw framing garbage are judged for liveness only. dbg build only.",
+    "design_ref": "DESIGN.md §3 C18",
+}
+
 NOT_YET = "check not built yet in this round (work in progress; see DESIGN.md for the planned monitor)"
 
 
